@@ -78,12 +78,12 @@ theorem C16_never_observes_others (kg : Keying) (perf : Bool) (t : ThreadId) (op
   exact ⟨(Prod.mk.inj this).2, (Prod.mk.inj this).1⟩
 
 /-- `hop` is needed (and so is `h` of `C16_gstep_simulates_local`): equal views, different scoped value -/
-example : abs Keying.real 0 GState.init = abs Keying.real 0 { GState.init with sh := { sv := 5, lru := [] } } ∧
+example : abs Keying.real 0 GState.init = abs Keying.real 0 { GState.init with sh := { sv := 5, lru := [], nf := false } } ∧
     (gStep Keying.real false 0 .svGet GState.init).2 ≠
-      (gStep Keying.real false 0 .svGet { GState.init with sh := { sv := 5, lru := [] } }).2 ∧
-    localStep false (abs Keying.real 0 { GState.init with sh := { sv := 5, lru := [] } }) .svGet ≠
-      (abs Keying.real 0 (gStep Keying.real false 0 .svGet { GState.init with sh := { sv := 5, lru := [] } }).1,
-       (gStep Keying.real false 0 .svGet { GState.init with sh := { sv := 5, lru := [] } }).2) := by decide
+      (gStep Keying.real false 0 .svGet { GState.init with sh := { sv := 5, lru := [], nf := false } }).2 ∧
+    localStep false (abs Keying.real 0 { GState.init with sh := { sv := 5, lru := [], nf := false } }) .svGet ≠
+      (abs Keying.real 0 (gStep Keying.real false 0 .svGet { GState.init with sh := { sv := 5, lru := [], nf := false } }).1,
+       (gStep Keying.real false 0 .svGet { GState.init with sh := { sv := 5, lru := [], nf := false } }).2) := by decide
 /-- `u ≠ t` of the frame theorem is needed: a thread's own step does change its own view -/
 example : abs Keying.real 0 (gStep Keying.real false 0 (.taskStart 5) GState.init).1 ≠ abs Keying.real 0 GState.init := by
   decide
@@ -275,9 +275,13 @@ example (perf : Bool) (sch : List (ThreadId × Op)) : interW [] [] perf sch = in
 /-! ## attributes of a thread that are not its identity (its NAME, its daemon flag, ...)
 
 A thread's name is chosen by the program (`Thread(name=..)`, `current_thread().name = ..`); any number of live threads
-may carry the same one.  The library as written (`Keying.real` / `Keying.cpython`) never looks at it: the model has no
-name component at all, so the statements above hold for every naming of the threads, and renaming is a no-op
-(`Op.note`).  A library that derived the deduplication scope from such an attribute is `Keying.byAttr attr`. -/
+may carry the same one.  The library as written reads it in ONE place, for display only: `TaskScheduler.__init__`
+(scheduler.py:48-55) puts `thread.name` (or `str(thread.ident)` if the name is empty) into `TaskScheduler.name`, the label
+that debug dumps print; no carrier is indexed by it and no deduplicate key contains it (`Keying.real` / `Keying.cpython`).
+The model has no name component (the harness compares the label with what the thread is called at that moment and
+records a Boolean, `Obs.sched _ own`), so the statements above hold for every naming of the threads, and renaming is
+a no-op (`Op.note`) - which is how the model is BUILT, not a theorem about the code; the lock-step runs with equal,
+empty and changing names are what ties it to the code.  A library that derived the deduplication scope from such an attribute is `Keying.byAttr attr`. -/
 
 /-- the deduplication scope derived from an attribute `attr t` of the thread (its name ...) instead of the Thread
     object; thread-local holders as written -/
@@ -333,6 +337,65 @@ theorem C16_shared_object_counterexample :
     specClause false 2 [aloneOn false 0 (opsOf 0 sharedClash), aloneOn false 1 (opsOf 1 sharedClash)]
       (inter false sharedClash) = "interference:shared-object" := by
   decide
+
+/-! ## the library's own process-wide `none_future` (third audit A4) -/
+
+/-- thread 0 is preempted inside `repr(none_future)` (past `self._in_repr = True`); thread 1 - a computation that only
+    does `yield none_future; return repr(none_future)` - asks for the repr meanwhile, and again after thread 0 is done -/
+def nfClash : List (ThreadId × Op) := [(0, .nfEnter), (1, .nfRepr), (0, .nfExit), (1, .nfRepr)]
+
+/-- **the property as stated is false of the code although the program shares no object of its own** (OPEN FINDING
+    `hist/fail:interference:none-future-repr`): `FutureBase.__repr__` keeps its re-entrancy flag `_in_repr` IN the
+    object (futures.py:166-184) and `asynq.none_future` is one object for the whole process (futures.py:225), so the
+    library as written (`Keying.real`) answers "<recursion>" (`.bool true`) to thread 1 while thread 0 is inside the same
+    method, where alone thread 1 gets the ordinary text both times; the observer names it with a clause of its own, and
+    a thread that does not ask for that repr is undisturbed.  With the flag kept per activation (the proposed repair:
+    every call behaves like `nfRepr` on an unset flag) there is nothing to observe. -/
+theorem C16_none_future_repr_counterexample :
+    (∀ p ∈ nfClash, isNf p.2 = true) ∧
+    proj 1 (inter false nfClash) = [(.nfRepr, .bool true), (.nfRepr, .bool false)] ∧
+    proj 1 (inter false (only 1 nfClash)) = [(.nfRepr, .bool false), (.nfRepr, .bool false)] ∧
+    proj 0 (inter false nfClash) = proj 0 (inter false (only 0 nfClash)) ∧
+    proj 2 (inter false (nfClash ++ [(2, .getActive), (2, .mkItem 1 9)])) =
+      proj 2 (inter false [(2, .getActive), (2, .mkItem 1 9)]) ∧
+    specClause false 2 [aloneOn false 0 (opsOf 0 nfClash), aloneOn false 1 (opsOf 1 nfClash)]
+      (inter false nfClash) = "interference:none-future-repr" := by
+  decide
+
+/-- two threads preempted inside the method at the same time: the second gets "<recursion>" at once and its
+    activation does not reset the flag; the flag is reset by the activation that set it -/
+example : (inter false [(0, .nfEnter), (1, .nfEnter), (1, .nfExit), (2, .nfRepr), (0, .nfExit), (2, .nfRepr)]).map (·.2.2) =
+    [.bool false, .bool true, .unit, .bool true, .unit, .bool false] := by decide
+
+/-- the new clause does not swallow its neighbours: a wrong scoped value next to agreeing `none_future` records keeps
+    the clause of the shared objects; a wrong active task is named by `specCheckOwn` as before -/
+example : specClause false 1 [aloneOn false 0 [.nfRepr, .svGet]] [(0, (.nfRepr, .bool false)), (0, (.svGet, .nat 5))]
+    = "interference:shared-object" := by decide
+example : specClause false 1 [aloneOn false 0 [.nfRepr, .getActive]] [(0, (.nfRepr, .bool true)), (0, (.getActive, .active (some 3)))]
+    = "interference:scheduler" := by decide
+example : specClause false 1 [aloneOn false 0 [.nfRepr, .getActive]] [(0, (.nfRepr, .bool true)), (0, (.getActive, .active none))]
+    = "interference:none-future-repr" := by decide
+
+/-! ## after the cut under COLLECT_PERF_STATS (third audit D10) -/
+
+/-- the two hand-mutated observations of the third audit: under COLLECT_PERF_STATS, AFTER a thread's first cached call,
+    a deduplicated call is handed another task / `get_active_task()` answers a task although none is active.  Until the
+    third audit both were named `interference:shared-object` (the signature of the recorded finding); now they have
+    a clause of their own, while what a cached call legitimately shifts (profiler ids: thread 1 of `cutClash` gets id 2
+    instead of 3) is still named `interference:shared-object` -/
+example : specClause true 1 [aloneOn true 0 [.lruCall 1, .dedupCall 0 7]]
+    [(0, (.lruCall 1, .cache false 11)), (0, (.dedupCall 0 7, .dedup 1 0 3))] = "interference-after-cached-call:deduplicate" := by decide
+example : specClause true 1 [aloneOn true 0 [.lruCall 1, .getActive]]
+    [(0, (.lruCall 1, .cache false 11)), (0, (.getActive, .active (some 3)))] = "interference-after-cached-call:scheduler" := by decide
+example : aloneOn true 0 [.lruCall 1, .dedupCall 0 7] = [(.lruCall 1, .cache false 11), (.dedupCall 0 7, .dedup 0 0 3)] := by decide
+example : specClause true 2 [aloneOn true 0 (opsOf 0 cutClash), aloneOn true 1 (opsOf 1 cutClash)] (inter true cutClash)
+    = "interference:shared-object" := by decide
+/-- a profiler buffer that differs after the cut in the per-task entries only is a consequence of the shared cache; one
+    that differs in a user entry is not -/
+example : specClause true 1 [[(.lruCall 1, .cache false 11), (.profFlush, .stats [.task 2, .task 1, .user 4])]]
+    [(0, (.lruCall 1, .cache true 11)), (0, (.profFlush, .stats [.task 1, .user 4]))] = "interference:shared-object" := by decide
+example : specClause true 1 [[(.lruCall 1, .cache false 11), (.profFlush, .stats [.task 2, .task 1, .user 4])]]
+    [(0, (.lruCall 1, .cache true 11)), (0, (.profFlush, .stats [.task 1, .user 5]))] = "interference-after-cached-call:profiler" := by decide
 
 /-! ## the context a thread starts with is an input of its computation -/
 
@@ -428,6 +491,33 @@ theorem C16_spec_own_holds (kg : Keying) (hs : kg.Separates) (perf : Bool) (g₀
   simp only [specOwn, specCheckOwn, h1, h2, h3, h4, h5, key k (Nat.le_refl k), if_false, Bool.false_eq_true,
     Option.isNone_none]
 
+/-- a thread whose records equal those of its run alone passes the two comparisons made before the last one -/
+theorem maskedFind_none_of_fullFind (aloneRecs : List (List Rec)) (conc : List (ThreadId × Rec)) (k : Nat)
+    (h : fullFind aloneRecs conc k = none) : maskedFind aloneRecs conc k = none := by
+  induction k with
+  | zero => rfl
+  | succ n ih =>
+    simp only [fullFind] at h
+    split at h
+    · cases h
+    · next hn =>
+      split at h
+      · next he => simp only [maskedFind, ih hn, he, firstDiff_self]
+      · cases h
+
+theorem nfFind_none_of_fullFind (aloneRecs : List (List Rec)) (conc : List (ThreadId × Rec)) (k : Nat)
+    (h : fullFind aloneRecs conc k = none) : nfFind aloneRecs conc k = none := by
+  induction k with
+  | zero => rfl
+  | succ n ih =>
+    simp only [fullFind] at h
+    split at h
+    · cases h
+    · next hn =>
+      split at h
+      · next he => simp only [nfFind, ih hn, he, if_true]
+      · cases h
+
 /-- **the whole observer, for programs that share no object between threads** (decidable hypothesis on the schedule):
     the model's concurrent run is accepted against the model's runs of each thread alone -/
 theorem C16_spec_holds_partial (kg : Keying) (hs : kg.Separates) (perf : Bool) (g₀ : GState) (k : Nat) (hk : 0 < k)
@@ -455,19 +545,38 @@ theorem C16_spec_holds_partial (kg : Keying) (hs : kg.Separates) (perf : Bool) (
         · simp [hpn] at he
       have ni := (C16_noninterference kg hs perf g₀ sch n ho).1.2
       simp only [fullFind, ih (Nat.le_of_succ_le hn), hget, ni, if_true]
-  simp only [spec, specCheck, own, key k (Nat.le_refl k), Option.isNone_none]
+  have full := key k (Nat.le_refl k)
+  simp only [spec, specCheck, own, maskedFind_none_of_fullFind _ _ k full, nfFind_none_of_fullFind _ _ k full, full,
+    ite_self, Option.isNone_none]
 
-/-- for ALL programs the model can fail the observer with its last clause only: whatever the threads do, the only
-    complaint `spec` can have about a run of the model is `interference:shared-object` -/
+/-- for ALL programs the model can fail the observer only with the clauses that come after `specCheckOwn`: whatever
+    the threads do, the only complaints `spec` can have about a run of the model are `interference:shared-object`
+    (objects the program shares), `interference:none-future-repr` (the library's own `none_future`) and - under
+    COLLECT_PERF_STATS only - a clause `interference-after-cached-call:..`.  (That the model never produces the latter
+    is NOT proved: it would need non-interference modulo profiler ids; the check evaluates it on every run, SPECM.) -/
 theorem C16_spec_fails_only_on_shared_objects (kg : Keying) (hs : kg.Separates) (perf : Bool) (g₀ : GState) (k : Nat)
     (hk : 0 < k) (sch : List (ThreadId × Op)) (hthr : ∀ p ∈ sch, p.1 < k) :
     specClause perf k ((List.range k).map fun t => proj t (gRunFrom kg perf g₀ (only t sch)).2) (gRunFrom kg perf g₀ sch).2 = "ok" ∨
     specClause perf k ((List.range k).map fun t => proj t (gRunFrom kg perf g₀ (only t sch)).2) (gRunFrom kg perf g₀ sch).2 =
-      "interference:shared-object" := by
+      "interference:shared-object" ∨
+    specClause perf k ((List.range k).map fun t => proj t (gRunFrom kg perf g₀ (only t sch)).2) (gRunFrom kg perf g₀ sch).2 =
+      "interference:none-future-repr" ∨
+    (perf = true ∧ ∃ c, specClause perf k ((List.range k).map fun t => proj t (gRunFrom kg perf g₀ (only t sch)).2)
+      (gRunFrom kg perf g₀ sch).2 = "interference-after-cached-call:" ++ c) := by
   have own := C16_spec_own_holds kg hs perf g₀ k hk sch hthr
   simp only [specOwn, Option.isNone_iff_eq_none] at own
   simp only [specClause, specCheck, own]
-  split <;> simp
+  cases perf
+  · simp only [Bool.false_eq_true, if_false]
+    split
+    · simp
+    · split <;> simp
+  · simp only [if_true]
+    split
+    · next c _ => exact Or.inr (Or.inr (Or.inr ⟨trivial, c, rfl⟩))
+    · split
+      · simp
+      · split <;> simp
 
 /-- SPECM of the check: the observer on the model's own records, for the library as written with the thread kinds and
     start contexts of the case.  An instance of `C16_spec_own_holds` / `C16_spec_holds_partial`. -/
